@@ -41,7 +41,7 @@ def run(check):
     scenarios = scenarios + [simpyev.random_script(rng) for _ in range(30000 if check.tier == 'quick' else 300000)]
     # the same scripts embedded in a native usim simulation next to a native activity waiting for event 1
     emb = [dict(sc, embedded=True) for sc in rng.sample(scenarios, min(len(scenarios), 15000 if check.tier == 'quick' else 150000))
-           if sc['until'] < 10]
+           if sc['until'] < 10 and not sc.get('uz')]
     scenarios = scenarios + emb
     check.extra['embedded_scripts'] = len(emb)
     import multiprocessing
@@ -51,7 +51,7 @@ def run(check):
     check.programs += len(runs)
     usimrun.judge(check, OBS, runs)
     # second verdict: every trace of a stand-alone run must be a behaviour of the operational specification SimPyOp
-    alone = [r for r in runs if not r[0].get('embedded')]
+    alone = [r for r in runs if not r[0].get('embedded') and not r[0].get('uz')]       # (SimPyOp has no run(until=0) mode)
     for idx, clause, pos in check.validate('SimPyOpT', [r[1] for r in alone], label='op', spec='SpecT', consts={'NP': 1, 'NS': 1}):
         check.report(clause, alone[idx][0], alone[idx][1], pos)
     check.extra['traces_validated_against_SimPyOp'] = len(alone)
